@@ -20,6 +20,10 @@ def relclose(a, b, rel, ab=0.0):
     return abs(a - b) <= rel * (abs(a) + abs(b)) + ab      # False for NaN
 
 
+def cplx(p):
+    return complex(float(p[0]), float(p[1]))
+
+
 def main():
     c = pv.Check("C09")
     thorough = c.tier == "thorough"
@@ -44,7 +48,12 @@ def main():
         qs = [{"q": "index"}] + [{"q": "dm", "beta": b, "tag": b} for b in betas]
         scen.append(exact.scenario(m, pred[m["id"]], queries=qs))
     # general models, relational part
-    gen = [dict(g, queries=[{"q": "dm", "beta": b, "tag": b, "averages": False} for b in ("0.5", "20.0")]) for g in models.catalogue(thorough)]
+    # (weights by ratio; every average against the trace of rho -- rebuilt in the Fock basis by the harness -- with the operator
+    # whose action on Fock states is written out independently of the library)
+    gen = [dict(g, queries=[{"q": "dm", "beta": b, "tag": b, "averages": True, "traces": True} for b in ("0.5", "20.0")]) for g in models.catalogue(thorough)]
+    for k in range(8 if not thorough else 60):
+        g = models.random_model(rng, "tr%d" % k, max_modes=5 if not thorough else 6)
+        gen.append(dict(g, queries=[{"q": "dm", "beta": b, "tag": b, "averages": True, "traces": True} for b in ("0.3", "4.0")]))
     recs, crashed = exact.run_split(exe, scen + gen, ms)
     byid = {}
     for r in recs:
@@ -157,6 +166,29 @@ def main():
                 k = bad[0]
                 c.violation("%s beta=%s: w[%d]/w[%d] = %r but exp(-beta dE) = %r" % (g["id"], r["beta"], k, k0, lw[k] / lw[k0], math.exp(-b * (le[k] - le[k0]))), g, cls="ratio")
                 continue
+            if "tr_occ_i" in r:
+                escale = max(abs(x) for x in le) + 1
+                tolT = 1e-10
+                bad = None
+                for i, (a, t) in enumerate(zip(r["occ_i"], r["tr_occ_i"])):
+                    if not (abs(float(a) - cplx(t)) <= tolT):
+                        bad = "occupancy of index %d is %s, trace of rho n_%d is %s" % (i, a, i, cplx(t))
+                if not (abs(float(r["occ"]) - sum(cplx(t) for t in r["tr_occ_i"])) <= tolT * len(r["occ_i"])):
+                    bad = "total occupancy %s, trace of rho N is %s" % (r["occ"], sum(cplx(t) for t in r["tr_occ_i"]))
+                for (a, t) in zip(r["docc"], r["tr_docc"]):
+                    if not (abs(float(a[2]) - cplx(t[2])) <= tolT):
+                        bad = "<n_%d n_%d> = %s, trace is %s" % (a[0], a[1], a[2], cplx(t[2]))
+                for (a, t) in zip(r.get("avg", []), r["tr_avg"]):
+                    if not (abs(cplx(a[2]) - cplx(t[2])) <= tolT):
+                        bad = "<c+_%d c_%d> = %s, trace is %s" % (a[0], a[1], cplx(a[2]), cplx(t[2]))
+                    elif a[0] != a[1] and abs(cplx(t[2])) > 1e-6:
+                        c.nontriv("%s %s offdiag" % (g["id"], r["beta"]))
+                if not (abs(float(r["avgE"]) - cplx(r["tr_E"])) <= 1e-9 * escale):
+                    bad = "average energy %s, trace of rho H is %s" % (r["avgE"], cplx(r["tr_E"]))
+                if bad:
+                    c.violation("%s beta=%s: %s" % (g["id"], r["beta"], bad), g, cls="trace")
+                    continue
+                c.nontriv("%s %s traces" % (g["id"], r["beta"]))
             c.traces += 1
     c.sample({"model": {k: ms[3][k] for k in ("M", "eps", "U", "rot", "bog", "layout")}, "betas": betas})
     c.rule = "exact family: %d models (layouts x parameter sets incl. offsets +-1000 and degeneracies x identity/rotation/Bogoliubov) x %d betas; non-trivial = (model, beta) compared, plus off-diagonal averages that are non-zero" % (len(ms), len(betas))
